@@ -405,7 +405,7 @@ def generate(rng, profile):
     # ---- phase 1: shapes and layout
     entries = []
     addr = org
-    allow_shift = profile != 'rigid' and rng.random() < 0.12
+    allow_shift = profile != 'rigid' and rng.random() < 0.2
     org_shift = False
     for e in range(nentries):
         ctl = rng.choice('cccccbbwtsgu') if rng.random() < 0.97 else 'i'
@@ -418,7 +418,9 @@ def generate(rng, profile):
         if e == 0 or gap:
             # skool2asm prints ORG only where @org stands; skool2bin runs on from the previous instruction otherwise
             if allow_shift and e == 0 and rng.random() < 0.5:
-                ent['org'] = ('value', addr + rng.choice([-1, 1, 16, 256]) if addr > 0 else addr + 7)
+                # shifts beyond the reach of a relative jump too: the operand of a not yet relocated JR/DJNZ is then out of range at
+                # the instruction's real address
+                ent['org'] = ('value', addr + rng.choice([-1, 1, 16, 130, 256, 1000]) if addr > 0 else addr + rng.choice([7, 200]))
                 if ent['org'][1] != addr:
                     org_shift = True
             else:
@@ -441,6 +443,8 @@ def generate(rng, profile):
             lines.append(ln)
         entries.append(ent)
     end = addr
+    if org_shift and rng.random() < 0.5:
+        style = 'lower'
     all_lines = [ln for ent in entries for ln in ent['lines']]
     g.addr_pool = [ln.addr for ln in all_lines]
     # EQUs: system-variable style addresses outside the file, sometimes an address inside it
